@@ -64,8 +64,72 @@ var bigNums = []string{"4294967296", "9223372036854775807", "9223372036854775808
 // NumOpts selects number classes.
 type NumOpts struct{ LeadZero, Big bool }
 
+// CarryNum returns a number around a decimal carry that is NOT a pure power of ten: head followed by nines
+// (199, 2999, 1099), its successor (200, 3000, 1100) or predecessor. Increment / bump helpers and digit-string
+// arithmetic are exercised by these, not by 9 / 99 / 999.
+func CarryNum(r *rand.Rand) string {
+	head := 1 + r.IntN(9)
+	if r.IntN(3) == 0 {
+		head = 10 + r.IntN(110)
+	}
+	s := strconv.Itoa(head) + strings.Repeat("9", 1+r.IntN(4))
+	switch r.IntN(4) {
+	case 0:
+		return decInc(s)
+	case 1:
+		return decDec(s)
+	}
+	return s
+}
+
+// DateNum returns a number shaped like a calendar date or clock time (CalVer components, build stamps):
+// YYYYMMDD, YYMMDD, YYYYMM, YYYY, HHMMSS; with long set also YYYYMMDDHHMMSS.
+func DateNum(r *rand.Rand, long bool) string {
+	s := strings.TrimLeft(dateNum(r, long), "0")
+	if s == "" {
+		return "0"
+	}
+	return s
+}
+
+func dateNum(r *rand.Rand, long bool) string {
+	y := []int{2000, 2019, 2020, 2023, 2024, 2025, 2038, 2099, 1999, 1970}[r.IntN(10)]
+	if r.IntN(3) == 0 {
+		y = 1990 + r.IntN(110)
+	}
+	mo := 1 + r.IntN(12)
+	d := 1 + r.IntN(31)
+	if r.IntN(4) == 0 {
+		mo, d = []int{1, 12, 10, 9}[r.IntN(4)], []int{1, 31, 30, 10, 28, 29}[r.IntN(6)]
+	}
+	hms := fmt.Sprintf("%02d%02d%02d", r.IntN(24), r.IntN(60), r.IntN(60))
+	n := 5
+	if long {
+		n = 6
+	}
+	switch r.IntN(n) {
+	case 0:
+		return fmt.Sprintf("%04d%02d%02d", y, mo, d)
+	case 1:
+		return fmt.Sprintf("%02d%02d%02d", y%100, mo, d)
+	case 2:
+		return fmt.Sprintf("%04d%02d", y, mo)
+	case 3:
+		return strconv.Itoa(y)
+	case 4:
+		return hms
+	}
+	return fmt.Sprintf("%04d%02d%02d", y, mo, d) + hms
+}
+
 // Num draws a decimal number string.
 func Num(r *rand.Rand, o NumOpts) string {
+	switch r.IntN(40) {
+	case 0:
+		return CarryNum(r)
+	case 1:
+		return DateNum(r, o.Big)
+	}
 	k := r.IntN(100)
 	if k >= 96 && len(dictNums) > 0 { // a number literal of the source (or a neighbour / power derived from it)
 		n := DictNum(r)
@@ -433,6 +497,15 @@ func One(eco string, r *rand.Rand) string {
 		case 1:
 			return s + "-" + Num(r, lz)
 		}
+		if chance(r, 1, 12) {
+			// unique (timestamped) snapshot as deployed to a repository: <base>-<yyyyMMdd.HHmmss>-<build>, next to the
+			// literal <base>-SNAPSHOT it stands for
+			s = pick(r, "1.0", "1.0", "2.1.3", s)
+			if chance(r, 1, 4) {
+				return s + "-SNAPSHOT"
+			}
+			return s + "-" + pick(r, "20240115", "20240301", "20231231", "20240115") + "." + pick(r, "123456", "080000", "235959", "000000") + "-" + pick(r, "1", "2", "7", "10")
+		}
 		q := pickE(eco, r, "alpha", "beta", "milestone", "rc", "cr", "snapshot", "ga", "final", "release", "sp", "foo", "bar", "xyz", "a", "b", "m")
 		single := len(q) == 1
 		q = mixCase(r, q)
@@ -500,8 +573,11 @@ func One(eco string, r *rand.Rand) string {
 
 // GoPseudo draws a Go pseudo-version (all three forms).
 func GoPseudo(r *rand.Rand) string {
-	ts := pick(r, "20240101120000", "20240101120001", "20231231235959", "20191109021931", "20240229000000")
-	h := pick(r, "abcdefabcdef", "0123456789ab", "ffffffffffff", "abcdefabcde0")
+	// boundary instants: the zero time.Time (the go command's placeholder v0.0.0-00010101000000-000000000000), the Unix
+	// epoch, the reference layout time, the last representable second
+	ts := pick(r, "20240101120000", "20240101120001", "20231231235959", "20191109021931", "20240229000000",
+		"00010101000000", "19700101000000", "20060102150405", "99991231235959", "00010101000001")
+	h := pick(r, "abcdefabcdef", "0123456789ab", "ffffffffffff", "abcdefabcde0", "000000000000")
 	switch r.IntN(3) {
 	case 0:
 		return fmt.Sprintf("v%s.0.0-%s-%s", pick(r, "0", "1", "2"), ts, h)
@@ -819,6 +895,10 @@ func Cluster(eco string, r *rand.Rand) []string {
 	if chance(r, 1, 6) {
 		out = append(out, Dense(eco, base, r)...)
 	}
+	// hash-collision family: ordinary versions whose texts collide under a common 32-bit hash (collide.go)
+	if chance(r, 1, 10) {
+		out = append(out, CollisionFamily(eco, r, 2)...)
+	}
 	// length family: spellings whose LENGTH is a number literal of the sources (buffer sizes, length guards, fast-path
 	// thresholds) and its neighbours
 	if chance(r, 1, 8) {
@@ -868,6 +948,13 @@ func Cluster(eco string, r *rand.Rand) []string {
 			w := EcoWord(eco, r)
 			sep := seps[r.IntN(len(seps))]
 			out = append(out, base+sep+w, base+sep+w+[]string{"1", "2", ".1", "-1"}[r.IntN(4)], base+sep+strings.ToUpper(w))
+		}
+	}
+	// maven: the unique snapshots of this base as a repository lists them, next to the literal -SNAPSHOT
+	if eco == "maven" && chance(r, 1, 5) {
+		out = append(out, base+"-SNAPSHOT", base+"-snapshot")
+		for k := 0; k < 4; k++ {
+			out = append(out, base+"-"+pick(r, "20240115", "20240301", "20231231")+"."+pick(r, "123456", "080000", "235959")+"-"+pick(r, "1", "2", "7", "10"))
 		}
 	}
 	// ecosystem-specific extras around the same base
